@@ -104,14 +104,29 @@ fn cfg() -> DocCfg {
 }
 
 fn query(doc: &xml_dom::XmlDocument, q: &str, ns: &[(String, String)]) -> String {
+    let fresh = query_in(doc, q, ns, false);
+    // a caller that re-uses its context for another vocabulary binds the same prefixes again: the later binding counts
+    let rebound = query_in(doc, q, ns, true);
+    if fresh == rebound {
+        fresh
+    } else {
+        format!("{} [but {} in a context in which every prefix was bound to another URI first and then bound again]", fresh, rebound)
+    }
+}
+
+fn query_in(doc: &xml_dom::XmlDocument, q: &str, ns: &[(String, String)], rebind: bool) -> String {
     let r = panics::catch(|| {
         let mut ctx = xml_xpath::eval::model::Context::default();
-        for (p, u) in ns {
-            // an empty prefix stands for the caller's default namespace (xq/xe: --setns xmlns=URI)
-            if p.is_empty() {
-                ctx.add_ns(None, u.as_str());
-            } else {
-                ctx.add_ns(Some(p.as_str()), u.as_str());
+        let rounds: &[bool] = if rebind { &[true, false] } else { &[false] };
+        for decoy in rounds {
+            for (p, u) in ns {
+                let u = if *decoy { format!("urn:earlier:{}", u) } else { u.clone() };
+                // an empty prefix stands for the caller's default namespace (xq/xe: --setns xmlns=URI)
+                if p.is_empty() {
+                    ctx.add_ns(None, u.as_str());
+                } else {
+                    ctx.add_ns(Some(p.as_str()), u.as_str());
+                }
             }
         }
         xml_xpath::query(doc.clone(), q, &mut ctx).map(|v| format!("{}", v)).map_err(|e| format!("error:{:?}", e))
